@@ -159,6 +159,7 @@ def run(pid, tier):
             variant = (i % 3) if pid == "C06" else (1 if i % 7 == 3 else 0)
             scenarios.append(runlib.scenario_from_behaviour(b, i, rng, variant))
         if pid == "C04":
+            scenarios.append(runlib.wide_slow_scenario(520, chk.seed))
             scenarios.append(runlib.detached_output_scenario(chk.seed))
             if tier == "thorough":
                 scenarios.append(runlib.detached_output_scenario(chk.seed + 1, 4200))
@@ -180,6 +181,7 @@ def run(pid, tier):
             scenarios.append(runlib.wide_scenario(140, chk.seed, fail_at=5, mode="all"))
             scenarios.append(runlib.background_process_scenario(chk.seed))
             scenarios.append(runlib.chmod_scenario(chk.seed))
+            scenarios.append(runlib.listener_killed_scenario(chk.seed))
             scenarios.append(runlib.linked_noexec_scenario(chk.seed))
             scenarios.append(runlib.linked_noexec_scenario(chk.seed + 1, cmd_dir=True))
         if pid == "C06":
